@@ -20,6 +20,10 @@ def get_check(prop):
         from .specsrc import SpecSrcCheck
 
         return SpecSrcCheck()
+    if prop == "C13":
+        from .buffers import BuffersCheck
+
+        return BuffersCheck()
     raise SystemExit(f"no check for {prop}")
 
 
